@@ -115,13 +115,13 @@ pub fn c04_insert<const N: usize>() {
     tok::reset();
     let (mut m, md) = any_map::<N>();
     let (k, which) = (vf::any_u8(), vf::any_u8());
-    vf::assume(which == 2 || md.n < N || md.has(k));
+    vf::assume(which < 4 && (which == 2 || md.n < N || md.has(k))); // 3 = insert_unchecked, inside its contract
     arm();
     let panicked = {
         let mm = &mut m;
         vf::catch(move || {
             let (kt, vt) = (Tok::new(k), Tok::new(9));
-            if which == 0 { drop(mm.insert(kt, vt)); } else if which == 1 { drop(mm.insert_key_value(kt, vt)); } else { drop(mm.checked_insert(kt, vt)); }
+            if which == 0 { drop(mm.insert(kt, vt)); } else if which == 1 { drop(mm.insert_key_value(kt, vt)); } else if which == 3 { drop(unsafe { mm.insert_unchecked(kt, vt) }); } else { drop(mm.checked_insert(kt, vt)); }
         })
     };
     if !panicked { tok::disarm(); vf::check(m.get(&BKey::free(k)).is_some() || (which == 2 && md.n == N), 732); }
